@@ -512,7 +512,7 @@ def payload_reads(chk, rule, prog, eff, cache):
     import paths as P
     import tables as TB
     load = prog.fn("cbor_load")
-    g = prog.global_for(load, "cbor_load.callbacks")
+    g = __import__("tables").load_callbacks_global(prog)
     fields = TB.callback_fields(prog)
     n = 0
     for name, el in zip(fields, g["init_val"].elems):
